@@ -105,6 +105,7 @@ def run(ctx, model=None):
                 check_case(ctx, g, model)
     for k in range(12 if ctx.quick() else 200):
         check_case(ctx, gen.tiny_reach_game(rng), model)
+        check_case(ctx, gen.parallel_dead_game(rng), model)
         check_case(ctx, gen.decimal_sum_game(rng), model)
     N = 300 if ctx.quick() else 6000
     for k in range(N):
